@@ -109,15 +109,30 @@ PConn(l) ==
   /\ Answer("conn", [l |-> l], "ok", {}, <<>>)
 
 (* mpt_accept on the bound socket + mpt_notify_add: exactly one new registered input per pending connection; *)
-(* none pending: no input                                                                                      *)
-Accept ==
+(* none pending: no input.  Which descriptor number the kernel hands out is the environment's choice (low = 1: *)
+(* the lowest one, 0, is free)                                                                                 *)
+Accept(low) ==
   /\ bnd = 1
   /\ IF bp > 0
      THEN /\ Fresh(<<"a">>) /\ bp' = bp - 1
-          /\ Answer("accept", [tok |-> nin + 1], "ok", {}, <<>>)
+          /\ Answer("accept", [tok |-> nin + 1, low |-> low], "ok", {}, <<>>)
      ELSE /\ UNCHANGED <<nin, ik, reg, was, rel, fdo, pend, bp, wire, eof>>
-          /\ Answer("accept", [tok |-> 0], "refused", {}, <<>>)
+          /\ Answer("accept", [tok |-> 0, low |-> low], "refused", {}, <<>>)
   /\ UNCHANGED <<bnd, sent>>
+
+(* mpt_bind(handle, 0): the bound socket is released; releasing the handle again changes nothing (whatever got its   *)
+(* descriptor number meanwhile is not touched); connections still pending there are lost                           *)
+Unbind ==
+  /\ bnd' = 0 /\ bp' = 0
+  /\ UNCHANGED <<nin, ik, reg, was, rel, fdo, pend, wire, eof, sent>>
+  /\ Answer("unbind", [x |-> 0], "any", {}, <<>>)
+
+(* _mpt_stream_setfile(fd, -1) on a registered bidirectional input: it keeps its one descriptor for reading only;   *)
+(* a descriptor still referenced stays open, the input stays registered and goes on receiving its peer's events       *)
+KeepRead(i) ==
+  /\ i \in reg /\ ik[i] \in {"c", "a", "n"}
+  /\ UNCHANGED state
+  /\ Answer("keepread", [i |-> i], "any", {}, <<>>)
 
 (* environment: the peer of input i writes one message / goes away *)
 Send(i) ==
@@ -200,7 +215,8 @@ Init ==
 Next ==
   \/ Listen \/ Connect
   \/ "refuse" \in Ops /\ (Refused("connectbad") \/ Refused("listenbad"))
-  \/ "accept" \in Ops /\ (Bind \/ Accept \/ PConn(0))
+  \/ "accept" \in Ops /\ (Bind \/ (\E low \in {0, 1} : Accept(low)) \/ PConn(0))
+  \/ "release" \in Ops /\ (Unbind \/ \E i \in reg : KeepRead(i))
   \/ \E l \in Listeners : PConn(l)
   \/ \E i \in reg : Send(i) \/ PClose(i)
   \/ Wait
